@@ -89,17 +89,19 @@ JSON = OneOf(NoneT, Bool, Int, Float, Str, Pred(V.is_VList, "list"), JOBJ)
 # --------------------------------------------------------------------------- maps (comprehension spec side)
 
 class SpecMap:
-    """Spec-level filter-map over a VL:  [body(v) for v in xs if keep(v)]  as a recursive function.
-    `apply(path, xs)` returns the VL term and applies the extensionality rule: if the code under proof built a
-    comprehension over the same list, pointwise agreement of keep-conditions and bodies (proved as its own
-    obligation `map-ext@<site>` for an arbitrary element satisfying the element facts) yields equality."""
+    """Spec-level filter-map over a VL:  [body(v, *params) for v in xs if keep(v, *params)]  as a recursive function
+    f(xs, *params).  `apply(path, xs, *params)` returns the VL term and applies the extensionality rule: if the code
+    under proof built a comprehension over the same list, pointwise agreement of keep-conditions and bodies (proved
+    as its own obligation `map-ext@<site>` for an arbitrary element satisfying the element facts) yields equality."""
     _count = [0]
 
-    def __init__(self, name, body_fn, keep_fn=None):
+    def __init__(self, name, body_fn, keep_fn=None, param_sorts=()):
         SpecMap._count[0] += 1
-        self.name = f"{name}!s{SpecMap._count[0]}"
-        self.var = z3.Const(f"__selem_{SpecMap._count[0]}__", V.Val)
-        self.fn = z3.RecFunction(self.name, V.VL, V.VL)
+        n = SpecMap._count[0]
+        self.name = f"{name}!s{n}"
+        self.var = z3.Const(f"__selem_{n}__", V.Val)
+        self.params = [z3.Const(f"__sparam_{n}_{i}__", srt) for i, srt in enumerate(param_sorts)]
+        self.fn = z3.RecFunction(self.name, V.VL, *param_sorts, V.VL)
         self.body_fn, self.keep_fn = body_fn, keep_fn
         self._defined = False
 
@@ -107,45 +109,47 @@ class SpecMap:
         if self._defined:
             return
         self._defined = True
-        self.body = z3.simplify(lower(self.body_fn(self.var)))
-        self.keep = None if self.keep_fn is None else z3.simplify(self.keep_fn(self.var))
+        self.body = z3.simplify(lower(self.body_fn(self.var, *self.params)))
+        self.keep = None if self.keep_fn is None else z3.simplify(self.keep_fn(self.var, *self.params))
         l = z3.FreshConst(V.VL, "l")
         step = z3.substitute(self.body, (self.var, V.hd(l)))
-        rec = V.VCons(step, self.fn(V.tl(l)))
+        rec = V.VCons(step, self.fn(V.tl(l), *self.params))
         if self.keep is not None:
-            rec = z3.If(z3.substitute(self.keep, (self.var, V.hd(l))), rec, self.fn(V.tl(l)))
-        z3.RecAddDefinition(self.fn, [l], z3.If(V.is_VNil(l), V.VNil, rec))
+            rec = z3.If(z3.substitute(self.keep, (self.var, V.hd(l))), rec, self.fn(V.tl(l), *self.params))
+        z3.RecAddDefinition(self.fn, [l] + self.params, z3.If(V.is_VNil(l), V.VNil, rec))
 
-    def __call__(self, xs):
+    def __call__(self, xs, *params):
         self.define()
-        return self.fn(xs)
+        return self.fn(xs, *params)
 
-    def apply(self, path, xs):
+    def apply(self, path, xs, *params):
         self.define()
         xs = z3.simplify(xs)
-        for cname, m in list(path.ctx.__dict__.get("maps_used", {}).items()):
+        psub = list(zip(self.params, params))
+        for cname, m in list(path.maps_used.items()):
             if not z3.simplify(m["xs"]).eq(xs):
                 continue
             done = path.ctx.__dict__.setdefault("map_ext_done", set())
-            key = (cname, self.name, xs.get_id(), id(path))
+            key = (cname, self.name, xs.get_id(), id(path), tuple(p.get_id() for p in params))
             if key in done:
                 continue
             done.add(key)
             v = path.fresh("ext")
             cbody = z3.substitute(m["body"], (m["var"], v))
-            sbody = z3.substitute(self.body, (self.var, v))
+            sbody = z3.substitute(self.body, (self.var, v), *psub)
             ckeep = z3.BoolVal(True) if m.get("keep") is None else z3.substitute(m["keep"], (m["var"], v))
-            skeep = z3.BoolVal(True) if self.keep is None else z3.substitute(self.keep, (self.var, v))
+            skeep = z3.BoolVal(True) if self.keep is None else z3.substitute(self.keep, (self.var, v), *psub)
             facts = [V.vl_contains(xs, v)]
             ent = path.ctx.__dict__.get("elem_shapes", {}).get(xs.get_id())
             if ent is not None:
                 facts.append(ent(v))
             site = m["site"].split(":", 1)[1] if ":" in m["site"] else m["site"]
-            ob = path.oblige(f"map-ext@{site}", z3.Implies(z3.And(*facts), z3.And(ckeep == skeep, z3.Implies(skeep, cbody == sbody))),
-                             "lemma", detail="pointwise equality of comprehension body and spec body (map extensionality)")
-            if ob.status == "unsat":
-                path.assume(m["fn"](xs) == self.fn(xs))
-        return self.fn(xs)
+            # auxiliary lemma (map extensionality). A failed attempt is not a failed obligation: the postcondition
+            # that needs the equality then fails on its own and carries the counter-model.
+            if path.try_prove(z3.Implies(z3.And(*facts), z3.And(ckeep == skeep, z3.Implies(skeep, cbody == sbody)))):
+                path.assume(m["fn"](xs) == self.fn(xs, *params))
+                path.ctx.__dict__.setdefault("lemmas_proved", []).append(f"map-ext@{site}")
+        return self.fn(xs, *params)
 
 
 _SPEC_MAPS = {}
